@@ -320,7 +320,14 @@ def sdObservedOrder (phase : String) (surv : List Entry) : Option (List Entry) :
     With equal join times among survivors the leader's order is unspecified
     between them: the order the real leader used is adopted when it is sorted. -/
 def hMbSd (args : List String) (real : Option String) : Option Out := do
-  let [jts, f1, f2, re] := args | none
+  -- optional 5th argument `readd=<set>`: these followers die silently and register again under the same identity (same name,
+  -- same join time) one second into the scenario.  `Add` stores by name, so the services map is the same function of
+  -- (name, join time) as before and the fresh connection answers as scripted: the prediction does not depend on the set.
+  let (jts, f1, f2, re, readd) ← match args with
+    | [jts, f1, f2, re] => some (jts, f1, f2, re, "-")
+    | [jts, f1, f2, re, ra] => if ra.startsWith "readd=" then some (jts, f1, f2, re, (ra.drop 6).toString) else none
+    | _ => none
+  let readd ← commaNats? readd
   let jts ← commaInts? jts
   let f1 ← commaNats? f1; let f2 ← commaNats? f2; let re ← commaNats? re
   let n := jts.length
@@ -341,10 +348,19 @@ def hMbSd (args : List String) (real : Option String) : Option Out := do
   let phaseOk (p : String) : Bool :=
     let nums : List Spec.C10.Obs := (sdParsePhase p).map fun (i, k, t) => (jts.getD i 0, k - 1, t - 1)
     Spec.C10.holds nums && (sdParsePhase p).all (fun x => decide (2 ≤ x.2.1))
+  -- a re-registered follower that answers its pings holds a number at the end of phase 1 (it was admitted again)
+  let admitted (p : String) : Bool :=
+    readd.all fun i => f1.contains i || re.contains i ||
+      (toks p).any fun t => t.startsWith s!"{i}=" && t != s!"{i}=x"
   let v := match real with
     | none => "-"
     | some _ => match phases with
-      | [p1, p2, _] => verdict (phaseOk p1 && phaseOk p2) "C10.leader"
+      | [p1, p2, p3] =>
+        -- a follower whose pings never fail is never dropped by the leader
+        let realClosed := (commaNats? ((p3.drop 7).toString)).getD []
+        if !(phaseOk p1 && phaseOk p2) then "FAIL C10.leader"
+        else if !(admitted p1) then "FAIL C10.restarted-follower-not-admitted"
+        else verdict (realClosed.all fun i => f1.contains i || f2.contains i) "C10.live-follower-dropped"
       | _ => "FAIL C10.unparsable"
   some { model, verdict := v }
 
